@@ -87,6 +87,11 @@ func runProg(ctx *app.RequestContext, toks []string) {
 			ctx.SetConnectionClose()
 		case "H":
 			ctx.Response.Header.Set(string(unhx(p[1])), string(unhx(p[2])))
+		case "AM":
+			// AbortWithMsg: Response.Reset() (everything set so far is dropped, including the SkipBody mark of a HEAD
+			// exchange if it was put there before the handler ran), then status, text/plain and the message
+			n, _ := strconv.Atoi(p[1])
+			ctx.AbortWithMsg(string(unhx(p[2])), n)
 		}
 	}
 }
@@ -355,8 +360,22 @@ func genRespProg(rng *Rng, last bool) []string {
 			toks = append(toks, "H:"+hx([]byte("Content-Length"))+":"+hx([]byte(strconv.Itoa(rng.Intn(12)))))
 		}
 	}
+	// a handler that answers through a resetting helper after all (no hijacked writer before it: Reset keeps that)
+	if rng.Intn(8) == 0 {
+		cw := false
+		for _, t := range toks {
+			if strings.HasPrefix(t, "CW") {
+				cw = true
+			}
+		}
+		if !cw {
+			toks = append(toks, "AM:"+strconv.Itoa(pick3(rng, 401, 403, 500))+":"+hx(genBodyBytes(rng, 1+rng.Intn(12))))
+		}
+	}
 	return toks
 }
+
+func pick3(rng *Rng, a, b, c int) int { return []int{a, b, c}[rng.Intn(3)] }
 
 func genC04(tier string, rng *Rng) {
 	n := 4000
